@@ -345,7 +345,9 @@ def _crash_points(seed, names):
     for name in names:
         r = fresh(seed, name)
         if r[0] != "ok":
-            raise HarnessError("fault-free %s fails on a fresh model: %s" % (name, r[1]))
+            # the fault-free call itself fails on this tree: no crash points to enumerate; the plain call is still examined
+            pts.append((name, None))
+            continue
         K, Kr, Kb = r[2]
         pts += [(name, ("forward", k)) for k in range(1, K + 1)]
         pts += [(name, ("reference", k)) for k in range(1, Kr + 1)]
@@ -357,7 +359,7 @@ def dls_enum(tier):
     cases = []
     for seed in ((1,) if tier == "quick" else (1, 2, 3)):
         for name, fault in _crash_points(seed, ["dls", "dls_raw_hyp", "dls_default_refs"]):
-            cases.append({"seed": seed, "history": [[name, list(fault)]]})
+            cases.append({"seed": seed, "history": [[name, None if fault is None else list(fault)]]})
         for name in INVALID:
             cases.append({"seed": seed, "history": [[name, None]]})
     return cases
@@ -368,7 +370,7 @@ def api_enum(tier):
     names = [n for n in OPS if not n.startswith("dls")]
     for seed in ((1,) if tier == "quick" else (1, 2)):
         for name, fault in _crash_points(seed, names):
-            cases.append({"seed": seed, "history": [[name, list(fault)]]})
+            cases.append({"seed": seed, "history": [[name, None if fault is None else list(fault)]]})
         for name in names:
             cases.append({"seed": seed, "history": [[name, None]]})
     return cases
@@ -378,6 +380,8 @@ def _steps(seed, reduced):
     """(call, fault) alphabet for histories: every call fault-free, every invalid call, and for each call its first, middle and last crash point"""
     steps = [(n, None) for n in ALLOPS]
     for name in OPS:
+        if fresh(seed, name)[0] != "ok":
+            continue
         K, Kr, Kb = fresh(seed, name)[2]
         for kind, kmax in (("forward", K), ("reference", Kr), ("backward", Kb)):
             ks = sorted(set([1, (kmax + 1) // 2, kmax])) if kmax else []
